@@ -537,6 +537,7 @@ class Or(BoolOp):
                 if match is not None:
                     i_upper, query_upper = match
                     process_range(i, query, i_upper, query_upper)
+                    del uppers[query.index]
                 else:
                     lowers[query.index] = (i, query)
 
@@ -545,6 +546,7 @@ class Or(BoolOp):
                 if match is not None:
                     i_lower, query_lower = match
                     process_range(i_lower, query_lower, i, query)
+                    del lowers[query.index]
                 else:
                     uppers[query.index] = (i, query)
 
@@ -598,6 +600,7 @@ class And(BoolOp):
                 if match is not None:
                     i_upper, query_upper = match
                     process_range(i, query, i_upper, query_upper)
+                    del uppers[query.index]
                 else:
                     lowers[query.index] = (i, query)
 
@@ -606,6 +609,7 @@ class And(BoolOp):
                 if match is not None:
                     i_lower, query_lower = match
                     process_range(i_lower, query_lower, i, query)
+                    del lowers[query.index]
                 else:
                     uppers[query.index] = (i, query)
 
